@@ -64,6 +64,10 @@ def run(res, tier, seed, shard, nshards):
             one(res, W, combo, keys_seen)
             for a, b in itertools.combinations(names, 2):
                 pair_seen.add((a, repr(combo[a]), b, repr(combo[b])))
+        # the request as WebSocketApp sends it (options split between the constructor and run_forever)
+        for i in range(24 if tier == "quick" else 400):
+            if (i + shard) % max(1, nshards // 2) == 0 or tier == "thorough":
+                app_case(res, W, rng, keys_seen)
         # key freshness over successive connections to one URL
         before = len(keys_seen)
         for _ in range(220 // max(1, nshards // 4)):
@@ -233,3 +237,125 @@ def one(res, W, c, keys_seen, fresh=False):
     except Exception:  # noqa
         pass
     res.sample(case, cap=3)
+
+
+def app_case(res, W, rng, keys_seen):
+    """WebSocketApp(url, header=, cookie=, subprotocols=).run_forever(host=, origin=, suppress_origin=): two connections
+    (the second after a loss, reconnect=...) must each send the request the options describe - no header lost, duplicated
+    or carried over."""
+    from .. import appsim
+    from ..ref import rfc6455 as R6
+    from ..sim import sched as _s
+    H.reset_process_state()
+    hdr_kind = rng.choice(["none", "list", "dict", "callable-list", "callable-dict", "tuple"])
+    calls = []
+    base_list = ["X-A: 1", "X-B: two words"]
+    if hdr_kind == "none":
+        header = None
+    elif hdr_kind == "list":
+        header = list(base_list)
+    elif hdr_kind == "tuple":
+        header = tuple(base_list)
+    elif hdr_kind == "dict":
+        header = {"X-A": "1", "X-N": None}
+    elif hdr_kind == "callable-list":
+        def header():
+            calls.append(1)
+            return [f"X-Call: {len(calls)}", "X-A: 1"]
+    else:
+        def header():
+            calls.append(1)
+            return {"X-Call": str(len(calls)), "X-N": None}
+    cookie = rng.choice([None, "k=v; k2=v2"])
+    subp = rng.choice([None, ["chat"], ["Chat.V2", "MQTT"]])
+    o_host = rng.choice([None, "override.test:99"])
+    o_origin = rng.choice([None, "https://o.test"])
+    suppress = rng.random() < 0.3
+    app_kwargs = {}
+    if header is not None:
+        app_kwargs["header"] = header
+    if cookie:
+        app_kwargs["cookie"] = cookie
+    if subp:
+        app_kwargs["subprotocols"] = subp
+    run_kwargs = dict(reconnect=0.5)
+    if o_host:
+        run_kwargs["host"] = o_host
+    if o_origin:
+        run_kwargs["origin"] = o_origin
+    if suppress:
+        run_kwargs["suppress_origin"] = True
+    extra = ["Sec-WebSocket-Protocol: " + subp[0]] if subp else []
+    plan = [dict(outcome="ok", script=[(0.2, "eof")], extra_headers=extra),
+            dict(outcome="ok", script=[(0.2, "frames", R6.encode(R6.TEXT, b"x")), (0.4, "close", b"")], extra_headers=extra)]
+    out = {}
+
+    def scen():
+        run = appsim.AppRun(plan, url="ws://app.test:8080/p?q=1", app_kwargs=app_kwargs, last_repeats=False)
+        out["run"] = run
+        run.run_forever(**run_kwargs)
+    S = _s.Sched(horizon=200, watchdog=60)
+    S.batch_horizon = None
+    try:
+        # app_case is called from inside the batch simulation of this check: run the app in it directly
+        scen()
+    except _s.SimFailure as e:
+        out["failure"] = e
+    run = out.get("run")
+    case = {"path": "WebSocketApp", "header": hdr_kind, "cookie": cookie, "subprotocols": subp, "host": o_host, "origin": o_origin, "suppress_origin": suppress}
+    res.case(("app", hdr_kind, cookie, repr(subp), o_host, o_origin, suppress), nontrivial=True)
+    res.count("app_path_requests")
+    if run is None or len(run.servers) != 2:
+        res.violation("connect-failed", f"{case}: {len(run.servers) if run else 0} of 2 connections; errors {[repr(a[0])[:80] for (t, n, a, ci, ac) in (run.trace if run else []) if n == 'on_error']}", case, option=["app"])
+        return
+    for ci, srv in enumerate(run.servers):
+        req = srv.hs.request
+        try:
+            method, target, version, headers, rest = RH.parse_request(req)
+        except RH.Malformed as e:
+            res.violation("malformed-request", f"{case} connection {ci}: {e}", case, option="app")
+            return
+        res.count("requests_parsed")
+
+        def bad(kind, detail):
+            res.violation(kind, f"{case} connection {ci}: {detail}", case, via="app")
+        if target != "/p?q=1":
+            bad("target", target)
+        hv = RH.get_all(headers, "Host")
+        if hv != [o_host or "app.test:8080"]:
+            bad("host-header", repr(hv))
+        og = RH.get_all(headers, "Origin")
+        if suppress and og:
+            bad("origin-not-suppressed", repr(og))
+        if o_origin and not suppress and og != [o_origin]:
+            bad("origin-header", repr(og))
+        sp = RH.get_all(headers, "Sec-WebSocket-Protocol")
+        if subp and (len(sp) != 1 or [t.strip() for t in sp[0].split(",")] != subp):
+            bad("subprotocol-header", repr(sp))
+        if not subp and sp:
+            bad("subprotocol-header", repr(sp))
+        ck = RH.get_all(headers, "Cookie")
+        if ck != ([cookie] if cookie else []):
+            bad("cookie-header", repr(ck))
+        std = {"host", "upgrade", "connection", "sec-websocket-version", "sec-websocket-key", "origin", "sec-websocket-protocol", "cookie"}
+        custom = sorted((k, v) for k, v in headers if k.lower() not in std)
+        if hdr_kind == "none":
+            want = []
+        elif hdr_kind in ("list", "tuple"):
+            want = [("X-A", "1"), ("X-B", "two words")]
+        elif hdr_kind == "dict":
+            want = [("X-A", "1")]
+        elif hdr_kind == "callable-list":
+            want = [("X-A", "1"), ("X-Call", str(ci + 1))]
+        else:
+            want = [("X-Call", str(ci + 1))]
+        if custom != sorted(want):
+            bad("custom-headers", f"{custom!r}, expected {sorted(want)!r}")
+        for name in std:
+            if len(RH.get_all(headers, name)) > 1:
+                bad("duplicate-header", name)
+        kv = RH.get_all(headers, "Sec-WebSocket-Key")
+        if len(kv) == 1:
+            if kv[0] in keys_seen:
+                bad("key-reused", kv[0])
+            keys_seen.add(kv[0])
